@@ -73,6 +73,7 @@ class Gen(object):
         if 'nillable' in t: occ['nillable'] = t['nillable']
         if t.get('choice'): occ['xml_choice_group'] = t['choice']
         if 'default' in t: occ['default'] = t['default']
+        if 'sub_name' in t: occ['sub_name'] = t['sub_name']
         if occ and k != 'attr':
             c = c.customize(**occ)
         return c
